@@ -13,11 +13,8 @@ NOTES = ("All checks: python3 run/check.py <id> --tier quick|thorough. Exit 0 = 
          "that fails on the current /repo tree; exit 2 = undecided (time-out / tool error / vacuity guard), never reported as a violation. "
          "Known findings: /verif/known_findings.txt. Self-test mutants: run/selftest.py.")
 
-CLAIMS = {}
-NOT_APPLICABLE = {}
-
-def claim(pid, category, technique, text, note, design_ref):
-    CLAIMS[pid] = {"category": category, "technique": technique, "text": text, "note": note, "design_ref": design_ref}
+import registry  # loads run/props/*.py, which may register claims too
+from api import claim, CLAIMS, NOT_APPLICABLE
 
 claim("C16", "proof",
       "CBMC function contracts (goto-instrument --dfcc) on the real bitops.c, full 32/64-bit input domain, loop-free",
